@@ -48,13 +48,32 @@ let fold_minus fold_min l = match l with
   else LNeg l
 | LNeg _ -> LNeg l
 
+(** val lint_max : coq_Z -> prim -> coq_Z **)
+
+let lint_max usize_bits t = match t with
+| Usize ->
+  if Z.eqb usize_bits (Zpos (Coq_xO (Coq_xO (Coq_xO (Coq_xO (Coq_xO
+       Coq_xH))))))
+  then Z.sub
+         (Z.pow (Zpos (Coq_xO Coq_xH)) (Zpos (Coq_xO (Coq_xO (Coq_xO (Coq_xO
+           (Coq_xO Coq_xH))))))) (Zpos Coq_xH)
+  else vt_max t
+| _ -> vt_max t
+
+(** val lint_on : coq_Z -> lit -> prim -> bool **)
+
+let rec lint_on usize_bits l t =
+  match l with
+  | LSigned v ->
+    if Z.ltb v Z0 then Z.ltb v (vt_min t) else Z.ltb (lint_max usize_bits t) v
+  | LBit v -> Z.ltb (lint_max usize_bits t) v
+  | LNeg l' -> lint_on usize_bits l' t
+
 (** val lint : lit -> prim -> bool **)
 
-let rec lint l t =
-  match l with
-  | LSigned v -> if Z.ltb v Z0 then Z.ltb v (vt_min t) else Z.ltb (vt_max t) v
-  | LBit v -> Z.ltb (vt_max t) v
-  | LNeg l' -> lint l' t
+let lint l t =
+  lint_on (Zpos (Coq_xO (Coq_xO (Coq_xO (Coq_xO (Coq_xO (Coq_xO Coq_xH)))))))
+    l t
 
 (** val const_int : coq_Z -> coq_Z -> bool -> coq_Z **)
 
